@@ -25,6 +25,7 @@ import (
 	"io"
 	"io/fs"
 	"net/http"
+	"net/url"
 	"os"
 	"path/filepath"
 	"sort"
@@ -4316,24 +4317,25 @@ func (p *Posix) CopyObject(ctx context.Context, input s3response.CopyObjectInput
 			putObjectInput.Tagging = input.Tagging
 		}
 
+		// pass the source object tagging to PutObject, if tagging directive
+		// is "COPY", so that the destination object is created with it
+		if input.TaggingDirective == types.TaggingDirectiveCopy {
+			tags, err := p.getAttrTags(srcBucket, srcObject)
+			if err != nil && !errors.Is(err, s3err.GetAPIError(s3err.ErrBucketTaggingNotFound)) {
+				return nil, fmt.Errorf("get source object tagging: %w", err)
+			}
+			if len(tags) != 0 {
+				pairs := make([]string, 0, len(tags))
+				for k, v := range tags {
+					pairs = append(pairs, url.QueryEscape(k)+"="+url.QueryEscape(v))
+				}
+				putObjectInput.Tagging = backend.GetPtrFromString(strings.Join(pairs, "&"))
+			}
+		}
+
 		res, err := p.PutObject(ctx, putObjectInput)
 		if err != nil {
 			return nil, err
-		}
-
-		// copy the source object tagging after the destination object
-		// creation, if tagging directive is "COPY"
-		if input.TaggingDirective == types.TaggingDirectiveCopy {
-			tagging, err := p.meta.RetrieveAttribute(nil, srcBucket, srcObject, tagHdr)
-			if err != nil && !errors.Is(err, meta.ErrNoSuchKey) {
-				return nil, fmt.Errorf("get source object tagging: %w", err)
-			}
-			if err == nil {
-				err := p.meta.StoreAttribute(nil, dstBucket, dstObject, tagHdr, tagging)
-				if err != nil {
-					return nil, fmt.Errorf("set destination object tagging: %w", err)
-				}
-			}
 		}
 
 		etag = res.ETag
